@@ -142,11 +142,12 @@ def check_setters(db, rep):
         n += 1
         bad = None
         for bits in itertools.product((0, 1), repeat=5):
-            for opt in (0, 1):
+            # the derived flag on entry: consistent with the switches, or overridden by the user (Set_AnyNumerics) either way
+            for opt, flag in [(o, fl) for o in (0, 1) for fl in (1 if any(bits) else 0, 0, 1)]:
                 this = Cell(Obj(sm.SQ, None, 's'), None, 0, 's')
                 for nm, b in zip(SWITCHES, bits):
                     this.value.field(nm).value = b
-                this.value.field('AnyNumerics').value = 1 if any(bits) else 0
+                this.value.field('AnyNumerics').value = flag
                 it = Interp(unit, sm.SquidsHooks(2))
                 it.call(f, this, [opt])
                 now = [this.value.fields[nm].value for nm in SWITCHES]
@@ -157,7 +158,7 @@ def check_setters(db, rep):
                     break
                 any_ = this.value.fields['AnyNumerics'].value
                 if int(bool(any_)) != int(any(want)):
-                    bad = 'from %s setting %s=%d gives AnyNumerics=%r' % (bits, name, opt, any_)
+                    bad = 'from %s with AnyNumerics=%d setting %s=%d gives AnyNumerics=%r' % (bits, flag, name, opt, any_)
                     break
             if bad:
                 break
@@ -289,6 +290,12 @@ def check_moves(db, rep):
                     break
         if not bad and old.value.fields['is_init'].value:
             bad = 'the moved-from object is still marked initialised'
+        if not bad:
+            # the moved-from object may be re-initialised and used again: its GSL back-pointer must not designate the new one
+            osys = old.value.fields['sys'].value if 'sys' in old.value.fields else None
+            opar = osys.fields['params'].value if isinstance(osys, Obj) and 'params' in osys.fields else None
+            if isinstance(opar, Ptr) and opar.region is not None and not opar.is_null() and opar.region.cell(opar.off) is new:
+                bad = 'sys.params of the moved-from object points to the new object: once re-initialised, its integration would drive the other solver'
         if not bad:
             # the callback now drives the new object's views
             numeqn = sm.field(new, 'sys').fields['dimension'].value
